@@ -75,7 +75,7 @@ func shuffle(t *core.Tape, a []string) []string {
 }
 
 func genCase(t *core.Tape, opt core.RunOpt) *Case {
-	w, m := world.Generate(t, world.GenOpt{MinPkgs: 3, MaxPkgs: 7, NeedDepth2: true, CleanChance: 2, ReadFaults: true, LineDirectives: true, DirExclude: true, MultiModule: true, StdImports: true})
+	w, m := world.Generate(t, world.GenOpt{MinPkgs: 3, MaxPkgs: 7, NeedDepth2: true, CleanChance: 2, ReadFaults: true, LineDirectives: true, DirExclude: true, MultiModule: true, StdImports: true, Bulk: true})
 	c := &Case{World: w}
 	add := func(label, variant string, ex driver.Exec, sc sched.Config) {
 		if ex.Rerun == 0 && ex.Driver != "vet" {
